@@ -237,7 +237,7 @@ pub fn mutate_cert(b: &[u8], other: &[u8]) -> Option<(Vec<u8>, &'static str)> {
             "cert-kind"
         }
         1 => {
-            wire::put_u64(&mut v, 8, p.slot + 1 + kernel::choose(M, 3));
+            wire::put_u64(&mut v, 8, p.slot.wrapping_add(1 + kernel::choose(M, 3)));
             "cert-slot"
         }
         2 => {
@@ -260,7 +260,7 @@ pub fn mutate_cert(b: &[u8], other: &[u8]) -> Option<(Vec<u8>, &'static str)> {
             "cert-signer-set"
         }
         4 => {
-            let nb = match kernel::choose(M, 4) { 0 => h.nbits + 1, 1 => h.nbits.saturating_sub(1), 2 => 2048, _ => 4096 };
+            let nb = match kernel::choose(M, 4) { 0 => h.nbits.wrapping_add(1), 1 => h.nbits.saturating_sub(1), 2 => 2048, _ => 4096 };
             wire::put_u64(&mut v, h.sig_off + 96, nb);
             "cert-bitmask-length"
         }
@@ -270,7 +270,7 @@ pub fn mutate_cert(b: &[u8], other: &[u8]) -> Option<(Vec<u8>, &'static str)> {
         }
         6 => {
             let st = wire::get_u64(&v, p.stake_off);
-            wire::put_u64(&mut v, p.stake_off, if kernel::choose(M, 2) == 0 { u64::MAX / 2 } else { st + 1 + kernel::choose(M, 1000) });
+            wire::put_u64(&mut v, p.stake_off, if kernel::choose(M, 2) == 0 { u64::MAX / 2 } else { st.wrapping_add(1 + kernel::choose(M, 1000)) });
             "cert-declared-stake"
         }
         7 => {
@@ -335,7 +335,7 @@ pub fn mutate_cert(b: &[u8], other: &[u8]) -> Option<(Vec<u8>, &'static str)> {
         }
         10 => {
             let nw = wire::get_u64(&v, h.sig_off + 104);
-            wire::put_u64(&mut v, h.sig_off + 104, nw + 1 + kernel::choose(M, 40));
+            wire::put_u64(&mut v, h.sig_off + 104, nw.wrapping_add(1 + kernel::choose(M, 40)));
             "cert-word-count"
         }
         _ => {
@@ -360,6 +360,9 @@ pub fn mutate_vote(b: &[u8], other: &[u8], n: usize) -> Option<(Vec<u8>, &'stati
     // ConsensusMessage::Vote: u32 0 | u32 kind | u64 slot | [32 hash] | 96 sig | u64 signer
     let mut v = b.to_vec();
     let kind = u32::from_le_bytes(v[4..8].try_into().ok()?);
+    if kind > 4 {
+        return None;
+    }
     let has_hash = kind <= 1;
     let sig_off = if has_hash { 48 } else { 16 };
     let signer_off = sig_off + 96;
@@ -371,7 +374,7 @@ pub fn mutate_vote(b: &[u8], other: &[u8], n: usize) -> Option<(Vec<u8>, &'stati
         }
         1 => {
             let s = wire::get_u64(&v, 8);
-            wire::put_u64(&mut v, 8, s + 1 + kernel::choose(M, 5));
+            wire::put_u64(&mut v, 8, s.wrapping_add(1 + kernel::choose(M, 5)));
             "vote-slot"
         }
         2 => {
@@ -383,7 +386,7 @@ pub fn mutate_vote(b: &[u8], other: &[u8], n: usize) -> Option<(Vec<u8>, &'stati
         }
         3 => {
             let s = wire::get_u64(&v, signer_off);
-            wire::put_u64(&mut v, signer_off, (s + 1 + kernel::choose(M, (n - 1).max(1) as u64)) % n as u64);
+            wire::put_u64(&mut v, signer_off, (s % n as u64 + 1 + kernel::choose(M, (n - 1).max(1) as u64)) % n as u64);
             "vote-signer"
         }
         4 => {
